@@ -1,0 +1,67 @@
+//go:build verif
+
+// Contracts for package journal, read by the /verif VC generator (govc). Comments only.
+
+package journal
+
+// stopIDOf: the stop id of an update ("" when the feed gave none)
+//@ pure func stopIDOf(u *gtfs.StopTimeUpdate) string = u.StopID == nil ? "" : *u.StopID
+//@ pure func arrivalOf(u *gtfs.StopTimeUpdate) *time.Time = u.Arrival == nil ? nil : u.Arrival.Time
+//@ pure func departureOf(u *gtfs.StopTimeUpdate) *time.Time = u.Departure == nil ? nil : u.Departure.Time
+
+//@ func stopIDOrEmpty
+//@   props C05 C14
+//@   requires stopTimeUpdate != nil
+//@   ensures result == stopIDOf(stopTimeUpdate)
+//@   assigns nothing
+
+//@ func tripIDSuffix
+//@   props C05 C15
+//@   ensures [short] len(tripID) < 6 ==> result == ""
+//@   ensures [suffix] len(tripID) >= 6 ==> result == tripID[6:]
+//@   assigns nothing
+
+// C14: "carrying that update's arrival, departure and track, stamped as last observed at that feed's time and not
+// marked past"
+//@ func (*StopTime).update
+//@   props C14 C05
+//@   requires stopTime != nil && stopTimeUpdate != nil
+//@   ensures [stop] stopTime.StopID == stopIDOf(stopTimeUpdate)
+//@   ensures [arrival] stopTime.ArrivalTime == arrivalOf(stopTimeUpdate)
+//@   ensures [departure] stopTime.DepartureTime == departureOf(stopTimeUpdate)
+//@   ensures [track] stopTime.Track == stopTimeUpdate.NyctTrack
+//@   ensures [last-observed] stopTime.LastObserved == feedCreatedAt
+//@   ensures [not-past] stopTime.MarkedPast == nil
+//@   canary [must-fail] stopTime.ArrivalTime == departureOf(stopTimeUpdate)
+//@   assigns *stopTime
+
+// C14: "marked past with the time of the first feed that no longer reported it" -- a mark is set once and kept
+//@ func (*StopTime).markPast
+//@   props C14 C15 C05
+//@   requires stopTime != nil
+//@   ensures [mark-once] old(stopTime.MarkedPast) != nil ==> stopTime.MarkedPast == old(stopTime.MarkedPast)
+//@   ensures [first-mark] old(stopTime.MarkedPast) == nil ==> stopTime.MarkedPast != nil && *stopTime.MarkedPast == feedCreatedAt && fresh(stopTime.MarkedPast)
+//@   ensures [data-untouched] stopTime.StopID == old(stopTime.StopID) && stopTime.ArrivalTime == old(stopTime.ArrivalTime) && stopTime.DepartureTime == old(stopTime.DepartureTime) && stopTime.Track == old(stopTime.Track) && stopTime.LastObserved == old(stopTime.LastObserved)
+//@   canary [must-fail] stopTime.MarkedPast != nil && *stopTime.MarkedPast == feedCreatedAt
+//@   assigns stopTime.MarkedPast
+
+// createPartition: past ++ updated ++ (dropped tail) is the old list; updated pairs run in lock step with the
+// updates; new is the rest of the updates. (C14: "no entry before that stop is ever dropped")
+//@ func createPartition
+//@   props C14 C05
+//@   ensures [empty-update-keeps-all] len(updates) == 0 ==> result.past == stopTimes && len(result.updated) == 0 && len(result.new) == 0
+//@   ensures [past-is-a-prefix] obj(result.past) == obj(stopTimes) && off(result.past) == off(stopTimes) && len(result.past) <= len(stopTimes)
+//@   ensures [sizes] len(result.past) + len(result.updated) <= len(stopTimes) && len(result.updated) <= len(updates)
+//@   ensures [updated-in-lock-step] forall k int :: 0 <= k && k < len(result.updated) ==> result.updated[k].existing == &stopTimes[len(result.past) + k] && result.updated[k].update == &updates[k] && stopTimes[len(result.past) + k].StopID == stopIDOf(&updates[k])
+//@   ensures [new-is-the-rest] len(updates) > 0 ==> obj(result.new) == obj(updates) && off(result.new) == off(updates) + len(result.updated) && len(result.new) == len(updates) - len(result.updated)
+//@   ensures [first-occurrence] len(updates) > 0 ==> (forall j int :: 0 <= j && j < len(result.past) ==> stopTimes[j].StopID != stopIDOf(&updates[0]))
+//@   ensures [found-means-aligned] len(updates) > 0 && len(result.past) > 0 ==> len(result.past) < len(stopTimes) && stopTimes[len(result.past)].StopID == stopIDOf(&updates[0])
+//@   ensures [maximal-run] len(updates) > 0 ==> len(result.past) + len(result.updated) == len(stopTimes) || len(result.updated) == len(updates) || stopTimes[len(result.past) + len(result.updated)].StopID != stopIDOf(&updates[len(result.updated)])
+//@   ensures [updated-fresh] fresh(result.updated)
+//@   loop 1 invariant forall j int :: 0 <= j && j < $i ==> stopTimes[j].StopID != firstUpdatedStopID
+//@   loop 2 invariant updateIndex == $i && len(p.updated) == $i && $i <= len(updates) && fresh(p.updated)
+//@   loop 2 invariant p.past == stopTimes[:firstUpdatedStopTimeIndex] && len(p.new) == 0
+//@   loop 2 invariant [existing] forall k int :: 0 <= k && k < $i ==> p.updated[k].existing == &stopTimes[firstUpdatedStopTimeIndex + k]
+//@   loop 2 invariant [update] forall k int :: 0 <= k && k < $i ==> p.updated[k].update == &updates[k]
+//@   loop 2 invariant [same-stop] forall k int :: 0 <= k && k < $i ==> stopTimes[firstUpdatedStopTimeIndex + k].StopID == stopIDOf(&updates[k])
+//@   assigns nothing
